@@ -22,13 +22,13 @@ THOROUGH_S = 420
 BATCH = 6
 RULE = ('one evaluation = one seeded run: a sequence of 10-80 calls f(*args, **kwargs) with args/kwargs drawn from {1, 1.0, True, None, '
         '"a", "x", 2, (1,)} (arity <= 3, keyword names a/x/b) and clock steps, through one memoizing decorator (Cache / FanoutCache / '
-        'Index / DjangoCache .memoize, memoize_stampede) x typed x ignore x name x expire; every result is compared with the direct '
+        'Index / DjangoCache .memoize, memoize_stampede) x typed x ignore x name x expire, over 1-3 functions whose (module, qualified name) pairs share a module, a name or a dotted spelling and which are decorated by one decorator object or by one memoize() call each; some calls make the function raise (must propagate, never be stored); every result carries the function and arguments that produced it and is compared with the direct '
         'call, the execution counter with the expiry rule, and expire=0 must leave the cache empty; stampede runs use 2-3 concurrent '
         'callers under the seeded scheduler with a slow function on the virtual clock; non-trivial = at least one cache hit; '
         'distinct = SHA-256 of the case / event log')
 ASSUMPTIONS = ['the probe function ignores the arguments listed in `ignore` (a function whose result depends on ignored arguments is outside the contract)',
                'without typed=True, numerically equal arguments (1, 1.0, True) may or may not share an entry; results are compared with ==']
-PROBES = ('hits', 'expired_recompute', 'stampede_threads', 'typed_runs', 'ignore_runs')
+PROBES = ('hits', 'expired_recompute', 'stampede_threads', 'typed_runs', 'ignore_runs', 'functions', 'raising_calls')
 TECHNIQUE = 'deterministic simulation (virtual clock for expiry, seeded scheduler and random() for memoize_stampede) + differential checking against the undecorated function with an execution counter'
 LEVEL_TEXT = ('seeded exploration of call-signature sequences x decorator options under a controlled clock; key collisions show up as '
               'wrong results because the probe function encodes its call signature in its result; stampede recomputation is explored '
@@ -39,13 +39,21 @@ ALPHA = [1, {'f': '1.0'}, True, None, 'a', 'x', 2, {'t': [1]}]
 KW = ['a', 'x', 'b']
 
 
-def gen_call(rng):
+FNAMES = [['m1', 'f'], ['m2', 'f'], ['m1', 'A.f'], ['m1', 'B.f'], ['m1', 'g'], ['m1.f', 'g'], ['m1', 'f.<locals>.g']]
+
+
+def gen_call(rng, nfun=1):
     nargs = rng.choice((0, 1, 1, 2, 3))
     args = [rng.choice(ALPHA) for _ in range(nargs)]
     kwargs = {}
     for name in rng.sample(KW, rng.choice((0, 0, 1, 2))):
         kwargs[name] = rng.choice(ALPHA)
-    return {'args': args, 'kwargs': kwargs}
+    call = {'args': args, 'kwargs': kwargs}
+    if nfun > 1:
+        call['fn'] = rng.randrange(nfun)
+    if rng.random() < 0.08:
+        call['raise'] = True
+    return call
 
 
 def gen_case(seed, tier):
@@ -55,7 +63,17 @@ def gen_case(seed, tier):
     cfg = {'wrap': 'stampede' if stampede else rng.choice(('cache', 'cache', 'fanout', 'index', 'django')),
            'typed': rng.random() < 0.5, 'ignore': ignore, 'name': rng.choice((None, None, 'fn-name')),
            'expire': rng.choice((None, None, 0, 5)), 'f12': rng.random() < 0.03}
-    calls = [gen_call(rng) for _ in range(rng.randint(2, 6))]
+    nfun = 1 if stampede else rng.choice((1, 1, 2, 3))
+    cfg['nfun'] = nfun
+    # several functions: distinct (module, qualified name) pairs that share a module, a name or a dotted spelling;
+    # decorated by one decorator object applied to each of them or by a fresh memoize(...) call per function
+    cfg['fnames'] = rng.sample(FNAMES, nfun)
+    cfg['deco_shared'] = rng.random() < 0.5
+    calls = [gen_call(rng, nfun) for _ in range(rng.randint(2, 6))]
+    if nfun > 1 and rng.random() < 0.7:
+        # the same arguments through two of the functions
+        twin = dict(calls[0], fn=(calls[0].get('fn', 0) + 1) % nfun)
+        calls.append(twin)
     if cfg['f12'] and not stampede:
         calls += [{'args': [1, None, 'a'], 'kwargs': {}}, {'args': [1], 'kwargs': {'a': None}}]
     n = rng.choice((10, 25, 50)) if tier == 'quick' else rng.choice((20, 50, 80))
@@ -90,9 +108,13 @@ def typed_view(desc):
 
 
 def separator_collision(a, b):
-    """Known finding F12: two different call signatures whose keys coincide because positional and keyword
-    arguments are separated by a bare None: args + (None,) + flattened sorted kwargs are equal."""
+    """Known finding F12: two different call signatures OF ONE FUNCTION whose keys coincide because positional and
+    keyword arguments are separated by a bare None: args + (None,) + flattened sorted kwargs are equal."""
     try:
+        if len(a) == 3 and len(b) == 3:
+            if a[0] != b[0]:
+                return False
+            a, b = a[1:], b[1:]
         fa = tuple(a[0]) + (None,) + tuple(x for kv in a[1] for x in kv)
         fb = tuple(b[0]) + (None,) + tuple(x for kv in b[1] for x in kv)
     except Exception:
@@ -100,10 +122,14 @@ def separator_collision(a, b):
     return a != b and fa == fb
 
 
+class ProbeError(Exception):
+    """Raised by the probe function for the calls marked 'raise'."""
+
+
 def same_result(got, want, typed):
     if got != want:
         return False
-    if typed and typed_view(got) != typed_view(want):
+    if typed and typed_view(got[-2:]) != typed_view(want[-2:]):
         return False
     return True
 
@@ -132,13 +158,51 @@ def build(world, cfg, counter, slow=None):
         store = dc.Cache(world.path('c')) if cfg.get('target', 'cache') == 'cache' else dc.FanoutCache(world.path('f'), shards=2)
         deco = dc.memoize_stampede(store, cfg['expire'], name=cfg['name'], typed=cfg['typed'], beta=cfg.get('beta', 1), ignore=ignore)
 
-    def probe(*args, **kwargs):
-        counter['n'] += 1
-        if slow is not None:
-            slow(args, kwargs)
-        return describe(args, kwargs, ignore)
+    if cfg.get('nfun') is None:
+        def probe(*args, **kwargs):
+            counter['n'] += 1
+            if slow is not None:
+                slow(args, kwargs)
+            return describe(args, kwargs, ignore)
 
-    return store, deco(probe)
+        return store, deco(probe)
+
+    raising = cfg.get('_raising', set())
+
+    def make(i):
+        def probe(*args, **kwargs):
+            counter['n'] += 1
+            if slow is not None:
+                slow(args, kwargs)
+            res = (i,) + describe(args, kwargs, ignore)
+            if repr(res) in raising:
+                raise ProbeError(repr(res))
+            return res
+        probe.__module__, probe.__qualname__ = cfg['fnames'][i]
+        probe.__name__ = probe.__qualname__.split('.')[-1]
+        return probe
+
+    fns = []
+    for i in range(cfg['nfun']):
+        if i and not (cfg.get('deco_shared') and cfg['name'] is None):
+            # a fresh decorator per function; an explicit name is the caller's own namespace, so each function gets its own
+            sub = dict(cfg, name=None if cfg['name'] is None else '%s-%d' % (cfg['name'], i))
+            deco = _decorator(dc, store, sub, ignore)
+        fns.append(deco(make(i)))
+    return store, fns
+
+
+def _decorator(dc, store, cfg, ignore):
+    wrap = cfg['wrap']
+    if wrap in ('cache', 'fanout'):
+        return store.memoize(name=cfg['name'], typed=cfg['typed'], expire=cfg['expire'], ignore=ignore)
+    if wrap == 'index':
+        return store.memoize(name=cfg['name'], typed=cfg['typed'], ignore=ignore)
+    if wrap == 'django':
+        from django.core.cache.backends.base import DEFAULT_TIMEOUT
+        to = DEFAULT_TIMEOUT if cfg['expire'] is None else cfg['expire']
+        return store.memoize(name=cfg['name'], timeout=to, typed=cfg['typed'], ignore=ignore)
+    return dc.memoize_stampede(store, cfg['expire'], name=cfg['name'], typed=cfg['typed'], beta=cfg.get('beta', 1), ignore=ignore)
 
 
 def store_len(store, wrap):
@@ -164,8 +228,16 @@ def run_seq(case):
     hits = 0
     try:
         counter = {'n': 0}
-        store, fn = build(world, cfg, counter)
         ignore = set(cfg['ignore'])
+        multi = cfg.get('nfun') is not None
+        if multi:
+            cfg = dict(cfg, _raising=set(
+                repr((c.get('fn', 0),) + describe(tuple(vals.dec(a) for a in c['args']), {k: vals.dec(v) for k, v in c['kwargs'].items()}, ignore))
+                for c in case['calls'] if c.get('raise')))
+            probes['functions'] = cfg['nfun']
+        store, fns = build(world, cfg, counter)
+        if not multi:
+            fns = [fns]
         wrap = cfg['wrap']
         expire = cfg['expire'] if wrap != 'index' else None
         if wrap == 'django' and expire is None:
@@ -180,14 +252,30 @@ def run_seq(case):
             args = tuple(vals.dec(a) for a in call['args'])
             kwargs = {k: vals.dec(v) for k, v in call['kwargs'].items()}
             want = describe(args, kwargs, ignore)
+            fn = fns[call.get('fn', 0)]
+            if multi:
+                want = (call.get('fn', 0),) + want
             before = counter['n']
             try:
                 got = fn(*args, **kwargs)
+            except ProbeError as exc:
+                # an exception of the function propagates and is never memoized: the function ran, for exactly this call
+                probes['raising_calls'] = probes.get('raising_calls', 0) + 1
+                if str(exc) != repr(want) or counter['n'] - before != 1:
+                    violations.append({'rule': 'C16/wrong-result', 'sig': 'exception-of-another-call',
+                                       'detail': 'call #%d %s raised %s after %d executions; the function raises for %r' % (
+                                           idx, json.dumps(call), exc, counter['n'] - before, want)})
+                    break
+                continue
             except Exception as exc:  # noqa
                 violations.append({'rule': 'C16/unexpected-exception', 'sig': type(exc).__name__,
                                    'detail': 'call #%d %s: %s' % (idx, json.dumps(call), str(exc)[:100])})
                 break
             ran = counter['n'] - before
+            if multi and repr(want) in cfg['_raising']:
+                violations.append({'rule': 'C16/wrong-result', 'sig': 'exception-swallowed',
+                                   'detail': 'call #%d %s returned %r; the function raises for these arguments' % (idx, json.dumps(call), got)})
+                break
             key = repr(fn.__cache_key__(*args, **kwargs))
             if not same_result(got, want, cfg['typed']):
                 prev = seen.get(key)
@@ -254,6 +342,9 @@ def run_stampede(case):
                 active[key] -= 1
 
         store, fn = build(world, cfg, counter, slow=slow)
+        multi = isinstance(fn, list)
+        if multi:
+            fn = fn[0]
         results = []
         calls = case['calls']
         order = [op['c'] for op in case['prog'] if op['op'] == 'call']
@@ -267,7 +358,8 @@ def run_stampede(case):
                     args = tuple(vals.dec(a) for a in call['args'])
                     kwargs = {k: vals.dec(v) for k, v in call['kwargs'].items()}
                     got = fn(*args, **kwargs)
-                    results.append((got, describe(args, kwargs, ignore), call))
+                    want = describe(args, kwargs, ignore)
+                    results.append((got, (0,) + want if multi else want, call))
                 return True
             return run
 
